@@ -122,6 +122,26 @@ func c03Evaluate(ctx *Ctx, root string, cfg wrConfig, before, after map[string]f
 		}
 	}
 	sort.Strings(ev.Changed)
+	// mode changes are changes that need an AUTOFIX line: only "Clearing executable bits",
+	// logged for that file, accounts for a different mode, and only for old &^ 0111
+	for _, rel := range sortedKeys(after) {
+		a, b := after[rel], before[rel]
+		if a.Kind != "f" || b.Kind != "f" || a.Mode == b.Mode {
+			continue
+		}
+		chmodLogged := false
+		if fl := logs[rel]; fl != nil {
+			for _, e := range fl.Entries {
+				if e.Kind == 'C' {
+					chmodLogged = true
+				}
+			}
+		}
+		if !chmodLogged || a.Mode != b.Mode&^0o111 {
+			ev.Problems = append(ev.Problems, c03Problem{Key: "C03/unlogged-mode-change/" + fileClass(rel),
+				What: fmt.Sprintf("the mode of %s changed from %o to %o but no AUTOFIX line \"Clearing executable bits\" accounts for it", rel, b.Mode, a.Mode), File: rel, Old: b.Data, New: a.Data})
+		}
+	}
 	for rel := range logs {
 		names[rel] = true
 	}
